@@ -119,7 +119,7 @@ pub fn drive(c: &Case) -> Result<Outcome, mon::PanicInfo> {
             Err(e) => Err(client::err_kind(&e)),
             Ok(mut cl) => {
                 // first activation: demand-active + 4 finalization PDUs are already queued by the server
-                let mut rd = |cl: &mut Client, n: usize, reads: &mut Vec<Result<(), String>>| {
+                let rd = |cl: &mut Client, n: usize, reads: &mut Vec<Result<(), String>>| {
                     for _ in 0..n {
                         let r = cl.read(|_| {}).map_err(|e| client::err_kind(&e));
                         let bad = r.is_err();
